@@ -25,7 +25,7 @@ def run(res, f, tier):
     if not t:
         raise Inconclusive("recursive evaluator not found from Expr::evaluate")
     ops = kind_ops(t, res)
-    res.floor("operator node kinds with a type rule", len(ops), 36)
+    res.floor("operator node kinds with a type rule", len(ops), 30)
     obligations = 0
     discharged = 0
     samples = []
